@@ -114,7 +114,7 @@ class Interp:
             ctx.assume(z3.Not(cond), name='in-domain@%s:%s' % site)
             return
         before = len(ctx.decisions), ctx.idx
-        d = ctx.branch(cond)
+        d = ctx.branch(cond, careful=True)
         if d:
             raise PyExc(exc_name, msg, site=site, kind=kind)
         elif ctx.idx == len(ctx.decisions) and before[1] == before[0] and not self._both_feasible_last():
@@ -131,6 +131,8 @@ class Interp:
         """truthiness of a value as Python bool or z3 Bool."""
         if v is None:
             return False
+        if hasattr(v, 'py_truth'):
+            return v.py_truth(self)
         if isinstance(v, bool):
             return v
         if isinstance(v, int):
@@ -418,6 +420,11 @@ class Interp:
 
     def st_For(self, s, fr):
         it = self.eval(s.iter, fr)
+        if hasattr(it, 'py_getitem') and not isinstance(it, SymList):
+            hook = getattr(self, 'symloop_hook', None)
+            if hook is not None and hook(self, s, fr, it):
+                return
+            raise Unsupported('loop over %s needs an invariant' % type(it).__name__)
         if isinstance(it, SymList):
             hook = getattr(self, 'symloop_hook', None)
             if hook is not None and hook(self, s, fr, it):
@@ -508,7 +515,7 @@ class Interp:
                 return
             except ContinueSig:
                 pass
-            raise paths.PathAbort('non-breaking iteration (covered by the havoc state)')
+            raise paths.PathCut('non-breaking iteration (covered by the havoc state)')
         return
 
     def st_While(self, s, fr):
